@@ -338,10 +338,11 @@ func (g *G) Commands() *brigodier.RootCommandNode {
 	root := &brigodier.RootCommandNode{}
 	cmd := brigodier.CommandFunc(func(*brigodier.CommandContext) error { return nil })
 	types := []brigodier.ArgumentType{brigodier.String, brigodier.Bool, brigodier.Int, brigodier.StringWord, brigodier.StringPhrase, brigodier.Float64, brigodier.Int64}
-	var first brigodier.CommandNode
+	// 1. plain top-level commands (possible redirect targets), some with argument sub-trees
 	n := 1 + g.R.Intn(4)
+	var targets []brigodier.CommandNode
 	for i := 0; i < n; i++ {
-		lit := brigodier.Literal("l" + string(rune('a'+i)) + g.keyPart(false))
+		lit := brigodier.Literal("c" + string(rune('a'+i)) + g.keyPart(false))
 		if g.R.Bool() {
 			lit.Executes(cmd)
 		}
@@ -353,17 +354,33 @@ func (g *G) Commands() *brigodier.RootCommandNode {
 			if g.R.Bool() {
 				a.Then(brigodier.Argument("b"+g.keyPart(false), hx.Pick(g.R, types)).Executes(cmd))
 			}
+			if g.R.Chance(1, 3) {
+				a.Then(brigodier.Literal("x" + g.keyPart(false)).Executes(cmd))
+			}
 			lit.Then(a)
 		}
-		if first != nil && g.R.Chance(1, 3) {
-			root.AddChild(brigodier.Literal("r" + string(rune('a'+i))).Redirect(first).Build())
-			continue
+		targets = append(targets, lit.Build())
+	}
+	// 2. aliases: literals that redirect to one of the commands (or to the root)
+	type entry struct {
+		node brigodier.CommandNode
+	}
+	var order []entry
+	for _, t := range targets {
+		order = append(order, entry{t})
+	}
+	for i, m := 0, g.R.Intn(4); i < m; i++ {
+		var target brigodier.CommandNode = hx.Pick(g.R, targets)
+		if g.R.Chance(1, 6) {
+			target = root
 		}
-		node := lit.Build()
-		if first == nil {
-			first = node
-		}
-		root.AddChild(node)
+		alias := brigodier.Literal("r" + string(rune('a'+i)) + g.keyPart(false)).Redirect(target).Build()
+		// anywhere among the siblings: BEFORE its target (a forward reference on the wire) as well as after it
+		k := g.R.Intn(len(order) + 1)
+		order = append(order[:k:k], append([]entry{{alias}}, order[k:]...)...)
+	}
+	for _, e := range order {
+		root.AddChild(e.node)
 	}
 	return root
 }
